@@ -11,7 +11,9 @@ Section Rel.
 
   Fixpoint rw (n n' : node) {struct n} : Prop :=
     match n with
-    | Scalar _ _ v => match n' with Scalar _ _ v' => R v v' | _ => False end
+    | Scalar t _ v =>
+        (* the text moves along R; a null tag never appears on a scalar that did not have it *)
+        match n' with Scalar t' _ v' => R v v' /\ (t' = TNull -> t = TNull) | _ => False end
     | Map kvs =>
         match n' with
         | Map kvs' =>
@@ -64,7 +66,7 @@ Section Rel.
   Lemma rw_refl n : rw n n.
   Proof.
     induction n as [t s v|kvs IH|es IH] using node_ind'.
-    - cbn. apply R_refl.
+    - cbn. split; [apply R_refl|auto].
     - rewrite rw_map_eq. induction IH as [|[k x] t Hx Ht IHt]; cbn; auto.
     - rewrite rw_seq_eq. induction IH as [|x t Hx Ht IHt]; cbn; auto.
   Qed.
@@ -76,7 +78,7 @@ Section Rel.
   Proof.
     induction a as [t s v|kvs IH|es IH] using node_ind'; intros b c Hab Hbc.
     - destruct b; cbn in Hab; try contradiction. destruct c; cbn in Hbc; try contradiction.
-      cbn. eauto.
+      cbn. destruct Hab, Hbc. split; eauto.
     - destruct b as [| kb |]; try (cbn in Hab; contradiction).
       destruct c as [| kc |]; try (cbn in Hbc; destruct kb as [|[? ?] ?]; contradiction).
       rewrite rw_map_eq in *. revert kb kc Hab Hbc.
@@ -172,10 +174,10 @@ Section Rel.
      with a text related by R *)
   Lemma rw_at a : forall n n' t s v,
     rw n n' -> no_ns_key a -> get_addr a n = Some (Scalar t s v) ->
-    exists t' s' v', get_addr a n' = Some (Scalar t' s' v') /\ R v v'.
+    exists t' s' v', get_addr a n' = Some (Scalar t' s' v') /\ R v v' /\ (t' = TNull -> t = TNull).
   Proof.
     induction a as [|st a IH]; intros n n' t s v Hrw Hns Hg.
-    - cbn in Hg. inv Hg. destruct n'; cbn in Hrw; try contradiction. cbn. eauto.
+    - cbn in Hg. inv Hg. destruct n'; cbn in Hrw; try contradiction. cbn. destruct Hrw. eauto 6.
     - inversion Hns as [|? ? Hst Hrest]; subst.
       destruct st as [k|i]; cbn [get_addr] in Hg.
       + destruct n as [| kvs |]; try discriminate.
@@ -190,6 +192,30 @@ Section Rel.
         rewrite rw_seq_eq in Hrw.
         destruct (rw_list_nth _ _ _ _ Hrw Hn) as (x' & Hn' & Hx).
         cbn [get_addr]. rewrite Hn'. eapply IH; eauto.
+  Qed.
+  (* ... and an address a field spec path reaches (not through a "namespace" key) is still reached *)
+  Lemma rw_reaches a : forall path n n',
+    rw n n' -> no_ns_key a -> reaches path a n = true -> reaches path a n' = true.
+  Proof.
+    induction a as [|st a IH]; intros path n n' Hrw Hns Hr.
+    - destruct path; exact Hr.
+    - destruct path as [|p rest]; [discriminate|]. cbn [reaches] in Hr |- *.
+      destruct (is_null n) eqn:En; [discriminate|].
+      inversion Hns as [|? ? Hst Hrest]; subst.
+      destruct st as [k|i].
+      + destruct n as [| kvs |]; try discriminate.
+        apply andb_true_iff in Hr as [Hk Hr]. apply String.eqb_eq in Hk; subst k.
+        destruct (find_field p kvs) as [x|] eqn:Ff; [|discriminate].
+        destruct n' as [| kvs' |]; try (cbn in Hrw; destruct kvs as [|[? ?] ?]; contradiction).
+        rewrite rw_map_eq in Hrw.
+        destruct (rw_kvs_find _ _ _ _ Hrw Ff) as (x' & Ff' & [Hx|Hx]); [|contradiction].
+        cbn [is_null]. rewrite String.eqb_refl, Ff'. cbn [andb]. eapply IH; eauto.
+      + destruct n as [| |es]; try discriminate.
+        destruct (nth_error es i) as [x|] eqn:Hn; [|discriminate].
+        destruct n' as [| |es']; try (cbn in Hrw; destruct es; contradiction).
+        rewrite rw_seq_eq in Hrw.
+        destruct (rw_list_nth _ _ _ _ Hrw Hn) as (x' & Hn' & Hx).
+        cbn [is_null]. rewrite Hn'. eapply IH; eauto.
   Qed.
 End Rel.
 
@@ -264,7 +290,7 @@ Section Chain.
         unfold set_scalar, str_scalar in H.
         apply select_referral_sound in E as (Hin & Hm & _).
         assert (Hc: chain v (c_name c)) by (apply chain_one; exists c; auto).
-        destruct (is_null (Scalar t s v)); cbn in H; inv H; cbn; assumption.
+        destruct (is_null (Scalar t s v)); cbn in H; inv H; cbn; (split; [assumption|discriminate]).
       - unfold nr_set_scalar in H. cbn [node_value] in H.
         rewrite select_none in H by (intros c Hc; apply no_empty_name; auto).
         cbn in H. inv H. apply (rw_refl chain chain_refl).
@@ -282,7 +308,7 @@ Section Chain.
       intros Hf Hc _ H Hs. unfold set_string_field in H. destruct (String.eqb v ""); [discriminate|].
       unfold set_field, str_scalar in H. cbn [is_null andb] in H. rewrite Hf in H. inv H.
       apply (rw_set_first chain chain_refl "name" name_node); auto.
-      left. destruct name_node; try discriminate. cbn. assumption.
+      left. destruct name_node; try discriminate. cbn. split; [assumption|discriminate].
     Qed.
 
     Lemma set_string_field_ns_rw kvs v n2 :
@@ -483,6 +509,8 @@ Section Whole.
       exists t' s' v', get_addr a (r_node r') = Some (Scalar t' s' v') /\ chain C v v'.
     Proof.
       intros Hok HC H Hn Hn' Hns Hg.
+      cut (exists t' s' v', get_addr a (r_node r') = Some (Scalar t' s' v') /\ chain C v v' /\ (t' = TNull -> t = TNull));
+        [intros (t' & s' & v' & A1 & A2 & _); eauto|].
       pose proof (nameref_transform_rw rules m m' Hok HC H) as HF.
       assert (Hrel: related r r').
       { clear -HF Hn Hn'. revert i Hn Hn'. induction HF as [|x y l l' Hxy Hl IH]; intros [|i] Hn Hn';
